@@ -161,3 +161,34 @@ Proof.
   repeat split; assumption.
 Qed.
 Print Assumptions C03_hw_delivered_nx.
+
+(* Part 8: with the hypotheses that are left (TransitProofs.v: the first hop of a shortest path between two interfaces
+   IS the router the source injects into; single attachment and distinct signal names are theorems): for every
+   accepted source-routed description whose links join routers and interfaces, every emitted route word steers its
+   flit to exactly its destination, is consumed to zero and crosses the routers of a shortest path. *)
+From FV Require Import TransitProofs TreeProofs PathProofs.
+Theorem C03_hw_delivered_nx_min :
+  forall (d : desc) (g : graph) (c : compiled) (ri : rinfo) (n : netlist) (t : cni) (nt : net),
+    net_ok d nt ->
+    build d = Ok g -> compile d g = Ok c -> gen_routing_info sp_nx c = Ok ri -> emit c ri = Ok n ->
+    d_algo d = SRC -> In t (c_nis c) -> links_typedb g c = true ->
+    forall s0 id ps p, In s0 (c_nis c) -> gen_route sp_nx c s0 t = Ok (id, Some ps) ->
+      sp_nx g (cn_name s0) (cn_name t) = Some p ->
+      let tr := send n nt (emit_ni d (ri_offset ri) s0) (hdr_of_word n (word_value ps)) in
+      t_out tr = Delivered (cn_name t) (HRoute 0) /\ length (t_rts tr) = length ps /\ (2 + length ps = length p)%nat /\
+      forall q, path_to_t (NxProofs.E g) (cn_name t) q (cn_name s0) -> (length p <= length q)%nat.
+Proof. exact hw_src_send_nx_min. Qed.
+Print Assumptions C03_hw_delivered_nx_min.
+
+(* Part 9: what the hardware model assumes about route consumption, over the text of hw/floo_route_select.sv and
+   hw/floo_route_comp.sv (harness/facts_decode.py, regenerated on every run): a router takes the low RouteSelWidth bits
+   of the route word as its output and shifts the word right by as many (Hw.select, HRoute case); the network
+   interface reads the word from its RoutingTables row at the destination's identity (Hw.table_word). *)
+From FVGen Require Import DecodeFacts.
+Theorem C03_rtl_route_consumption :
+  In "route_sel_id=channel_i.hdr.dst_id[RouteSelWidth-1:0]" rtl_src_branch_stmts /\
+  In "channel_o.hdr.dst_id=channel_i.hdr.dst_id>>RouteSelWidth" rtl_src_branch_stmts /\
+  In "channel_o=channel_i" rtl_src_branch_stmts /\
+  rtl_route_lookup = "(UseIdTable)?route_table_i[id_o]:route_table_i[id_i]".
+Proof. vm_compute. tauto. Qed.
+Print Assumptions C03_rtl_route_consumption.
